@@ -193,6 +193,13 @@ class ExprMixin:
                 ia, ib = self.concrete_items(a), self.concrete_items(b)
                 if ia is not None and ib is not None:
                     return TV("val", core.mk_tuple([self.to_val(x) for x in ia + ib]), "tuple")
+            # no static kind: the path condition (e.g. a callee's contract) may still fix it
+            for x in (a, b):
+                if x.k == "val" and self.entails(Val.is_int(x.r)):
+                    return TV("int", z3.simplify(self.as_int(a) + self.as_int(b)))
+            for x in (a, b):
+                if x.k == "val" and self.entails(Val.is_str(x.r)):
+                    return TV("str", z3.simplify(z3.Concat(self.as_str(a), self.as_str(b))))
             raise Unsupported(f"+ on unknown kinds at line {getattr(n, 'lineno', '?')}")
         if isinstance(op, ast.Sub):
             return TV("int", z3.simplify(self.as_int(a) - self.as_int(b)))
@@ -423,6 +430,11 @@ class ExprMixin:
             if cn in seen:
                 continue
             seen.add(cn)
+            if cn in SCHEMAS and not any(cn in mi.classes for mi in self.world.modules.values()) \
+                    and cn not in self.nested_classes():
+                # a schema-only refinement of a real class (e.g. "a metamodel whose flags are known")
+                todo.extend(b for b in SCHEMAS[cn].bases if b != "object")
+                continue
             for mi in self.world.modules.values():
                 cnode = mi.classes.get(cn)
                 if cnode is None:
@@ -612,7 +624,7 @@ class ExprMixin:
             r = self.user_getitem(obj, idx, n)
             if r is not None:
                 return r
-        if obj.k == "val" and not h and not self.in_spec:
+        if obj.k == "val" and (not h or h == "obj") and not self.in_spec:
             # object of unknown class: its __getitem__ is an uninterpreted pure lookup
             g = z3.Function("obj_getitem", core.IntS, Val, Val)
             v = g(self.as_addr(obj), self.to_val(idx))
